@@ -76,7 +76,9 @@ Fixpoint ins_shape (x : list Z) (l : list (list Z)) : list (list Z) :=
   end.
 Definition sort_shapes (l : list (list Z)) : list (list Z) := fold_right ins_shape [] l.
 
-Definition e_wallet (w : world) (x : wallet) : sexp :=
+(* proj: 0 stream c08-hist, 1 c17-hist, 2 c19-hist. Only C19's stream compares the stored counters of
+   inactive keysets (the others see -2 there), so that a counter defect shows in its own stream only. *)
+Definition e_wallet (proj : Z) (w : world) (x : wallet) : sexp :=
   let nm := length (mints w) in
   let per_mint := map (fun n => match find_view x (Z.of_nat n) with
                                 | Some v => A (sum_amt (mint_proofs x v))
@@ -85,42 +87,56 @@ Definition e_wallet (w : world) (x : wallet) : sexp :=
   let counters := map (fun n =>
                          let mt := nth n (mints w) mint0 in
                          L (map (fun k => match find_ks x (Z.of_nat n) (Z.of_nat k) with
-                                          | Some r => A (if Z.of_nat k =? active_ks mt then k_ctr r else (-2))
+                                          | Some r => A (if (Z.of_nat k =? active_ks mt) || (proj =? 2) then k_ctr r else (-2))
                                           | None => A (-1)
                                           end) (seq 0 (length (mn_fees mt))))) (seq 0 nm) in
   L [A (sum_amt (w_proofs x)); A (sum_amt (map fst (w_pend x))); L per_mint; L counters].
 
-Definition e_world (w : world) : sexp :=
-  L [L (map (e_wallet w) (wallets w)); L (map (fun m => L [A (mn_issued m); A (mn_redeemed m)]) (mints w))].
+(* blur: wallets whose last operation was cut inside (or right after) a loop of DeleteProof calls. The
+   order of those calls is the order of the selected proofs, which for the proofs of an inactive keyset
+   is the key order of the bbolt bucket: what is left in the store is not determined by the abstract
+   history. Such a wallet is shown as (-3) until it is restored. *)
+Definition e_world (proj : Z) (blur : list Z) (w : world) : sexp :=
+  L [L (map (fun e => if w_home (snd e) <? 0 then L [A (-1)]
+                      else if existsb (Z.eqb (fst e)) blur then L [A (-3)] else e_wallet proj w (snd e))
+            (number_from 0 (wallets w))); L (map (fun m => L [A (mn_issued m); A (mn_redeemed m)]) (mints w))].
 
-Definition e_obs (o : wop) (class amount : Z) (w : world) : sexp :=
+Definition e_obs (proj : Z) (blur : list Z) (o : wop) (class amount : Z) (w : world) : sexp :=
   let es := rev (effs w) in
   let ss := map shape_of (rev (reqs w)) in
   let es := if unordered o then Select.sortZ es else es in
   let ss := if unordered o then sort_shapes ss else ss in
-  L [A class; A amount; eListZ es; L (map eListZ ss); e_world w].
+  L [A class; A amount; eListZ es; L (map eListZ ss); e_world proj blur w].
 
 (* one history item: run, reopen after a cut, observe *)
-Definition step (vr : variant) (it : Z * wop) (w : world) : sexp * world :=
+Definition step (proj : Z) (vr : variant) (it : Z * wop) (bw : list Z * world) : sexp * (list Z * world) :=
   let o := snd it in
+  let '(blur, w) := bw in
   match exec_item vr it w with
-  | (ROk a, w1) => (e_obs o 0 a w1, w1)
-  | (RFail, w1) => (e_obs o 1 (fail_amount o) w1, w1)
-  | (RCut, w1) => (e_obs o 8 0 w1, w1)
+  | (ROk a, w1) =>
+      let blur1 := match o with ORestore i => filter (fun j => negb (j =? i)) blur | _ => blur end in
+      (e_obs proj blur1 o 0 a w1, (blur1, w1))
+  | (RFail, w1) => (e_obs proj blur o 1 (fail_amount o) w1, (blur, w1))
+  | (RCut, w1) =>
+      let blur1 := match effs w1 with
+                   | l :: _ => if l =? eDeleteProof then wallet_of w1 o :: blur else blur
+                   | [] => blur
+                   end in
+      (e_obs proj blur1 o 8 0 w1, (blur1, w1))
   end.
 
-Fixpoint run_items (vr : variant) (its : list (Z * wop)) (w : world) : list sexp :=
+Fixpoint run_items (proj : Z) (vr : variant) (its : list (Z * wop)) (bw : list Z * world) : list sexp :=
   match its with
   | [] => []
-  | it :: r => let '(ob, w1) := step vr it w in ob :: run_items vr r w1
+  | it :: r => let '(ob, bw1) := step proj vr it bw in ob :: run_items proj vr r bw1
   end.
 
 Definition run_wallet_with (vr : variant) (c : sexp) : sexp :=
   match c with
-  | L [L [L ms; L hs]; L its] =>
+  | L [L [L ms; L hs; A proj]; L its] =>
       match opt_map d_mint ms, opt_map sZ hs, opt_map d_item its with
       | Some ms', Some hs', Some its' =>
-          L (run_items vr its' (init_wallets (length hs') 0 (world_of ms' hs')))
+          L (run_items proj vr its' ([], init_wallets (length hs') 0 (world_of ms' hs')))
       | _, _, _ => bad_case
       end
   | _ => bad_case
